@@ -268,6 +268,25 @@ else:
                               f"{' in its first bundle' if first_only else ''}: {'released' if r_[0] == 'ok' else 'refused (' + r_[2] + ')'}, the safety rules say "
                               f"{'release' if want_ok else 'refuse (a signer of the last bundle is withdrawn at once)'}", {"kind": "equal-ksk-tags", "keeps": keep})
 
+# ---- the previous SKR (file) publishes, next to the signing key, another key whose identifier is the next KSK's label plus a blank: that is not the next KSK,
+#      which therefore was not pre-published when it starts signing
+_pad_key = dict(KSKS["ksk_third"], id=KSKS["ksk_next"]["id"] + " ")
+for pad_name, pubkey, want_ok in (("identifier-with-trailing-blank", _pad_key, False), ("control-real-next-ksk", KSKS["ksk_next"], True)):
+    _prev_p = skrgen.simulate_skr(make_req("prev-pad", T0), {i: {"publish": ["ksk_current", "other"], "sign": ["ksk_current"], "revoke": []} for i in range(1, 10)},
+                                  {**KSKS, "other": pubkey}, _bp)
+    _pl = vlib.run_impl(_skr_from_xml, ksrxml.render_skr(_prev_p))
+    hist["padded-identifier"] = hist.get("padded-identifier", 0) + 1
+    if _pl[0] != "ok":
+        if want_ok:
+            rep.violation("impl-vs-spec", f"previous SKR does not load: {_pl[2]}", {"kind": "padded-identifier"})
+        continue
+    _new_p = skrgen.simulate_skr(make_req("new-pad", T0 + D(days=90)), {i: {"publish": ["ksk_current", "ksk_next"], "sign": ["ksk_current", "ksk_next"], "revoke": []} for i in range(1, 10)}, KSKS, _bp)
+    r_ = vlib.run_impl(check_last_skr_and_new_skr, _pl[1], skrgen.k_response(_new_p), RequestPolicy())
+    if (r_[0] == "ok") != want_ok:
+        rep.violation("impl-vs-spec", f"{pad_name}: previous SKR (read from its file) publishes {pubkey['id']!r}; the new SKR signs with {KSKS['ksk_next']['id']!r} from its first bundle: "
+                      f"{'released' if r_[0] == 'ok' else 'refused (' + r_[2] + ')'}, the safety rules say {'release' if want_ok else 'refuse (that key was never pre-published)'}",
+                      {"kind": "padded-identifier", "published": pubkey["id"]})
+
 # ---- "released" means the file the ceremony hands over: the real ksrsigner, previous SKR and KSR on disk, output path observed afterwards
 import shutil
 import tempfile
